@@ -74,7 +74,13 @@ def apply_contract(ip, contract, info, args, kwargs):
             ip.state.class_over[(q, a)] = fresh_like(ip, cur, a, contract.havoc_kinds.get(p))
         else:
             havoc_path(ip, argmap, p, contract.havoc_kinds)
+    if any(p.startswith('field:') for p in (contract.modifies or [])) and 'alloc' in ip.state.ghost:
+        # the callee may allocate objects: the allocation counter moves forward by an unknown amount
+        a_new = ctx.fresh('alloc_after', IntSort)
+        ctx.assume(a_new >= ip.state.ghost['alloc'])
+        ip.state.ghost['alloc'] = a_new
     result = make_result(ip, contract, argmap)
+    feasible_before = ctx.feasible(z3.BoolVal(True))
     env['new'] = NS(dict(argmap, ghost=NS(ip.state.ghost)))
     env['ghost'] = NS(ip.state.ghost)
     env['result'] = result
@@ -86,6 +92,8 @@ def apply_contract(ip, contract, info, args, kwargs):
             ip.ctx.notes.append('postcondition %s of %s not usable at this call site' % (label, contract.qualname))
             continue
         ctx.assume(g)
+        if feasible_before and not ctx.feasible(z3.BoolVal(True)):
+            raise Unsupported('postcondition %s of %s is inconsistent with the state at its call site in %s' % (label, contract.qualname, ip.verifying))
     # further instances of the callee's universally quantified postconditions (chosen by the caller's contract)
     for name in contract.skolems:
         for inst in ctx.instances.get(name, []):
@@ -98,6 +106,10 @@ def apply_contract(ip, contract, info, args, kwargs):
                         ctx.assume(ops.bterm(_b(call_clause(fn, env2))))
                     except (AttributeError, KeyError, Unsupported):
                         continue
+    # vacuity guard: a callee postcondition that contradicts the call-site state would make everything after the call
+    # provable; that is a defect of the contract (or of its evaluation here), never a proof
+    if feasible_before and not ctx.feasible(z3.BoolVal(True)):
+        raise Unsupported('the postcondition of %s is inconsistent with the state at its call site in %s' % (contract.qualname, ip.verifying))
     return result
 
 
